@@ -60,12 +60,19 @@ def criteria(draw, with_unknown_target=None):
     if n:
         kind = draw(st.sampled_from(["xy", "dist", "none", "xy", "dist"]))
         bounds = st.sampled_from([8.0, 15.0, 30.0, 60.0])
+        # every bound is a criterion of its own: direct callers (e.g. the distance-bin helper of the analysis tools) pass one
+        # of a pair and leave the other unset
+        part = draw(st.sampled_from(["both", "both", "first", "second"]))
         if kind == "xy":
-            c["max_x"] = draw(GEN.per_label(n, bounds))
-            c["max_y"] = draw(GEN.per_label(n, bounds))
+            if part != "second":
+                c["max_x"] = draw(GEN.per_label(n, bounds))
+            if part != "first":
+                c["max_y"] = draw(GEN.per_label(n, bounds))
         elif kind == "dist":
-            c["max_d"] = draw(GEN.per_label(n, bounds))
-            c["min_d"] = draw(GEN.per_label(n, st.sampled_from([0.0, 2.0, 6.0])))
+            if part != "second":
+                c["max_d"] = draw(GEN.per_label(n, bounds))
+            if part != "first":
+                c["min_d"] = draw(GEN.per_label(n, st.sampled_from([0.0, 2.0, 6.0])))
         if draw(st.booleans()):
             c["conf"] = draw(GEN.per_label(n, st.sampled_from([0.0, 0.25, 0.5, 0.75])))
         if draw(st.booleans()):
@@ -141,7 +148,8 @@ def _view(o, with_pos=True):
 
 
 def _active(c):
-    return sum(1 for k in ("targets", "ignore", "max_x", "max_d", "conf", "min_pts", "uuids") if c.get(k) is not None)
+    n = sum(1 for k in ("targets", "ignore", "conf", "min_pts", "uuids") if c.get(k) is not None)
+    return n + (c.get("max_x") is not None or c.get("max_y") is not None) + (c.get("max_d") is not None or c.get("min_d") is not None)
 
 
 def _widen(c, draw_idx):
